@@ -84,7 +84,8 @@ func (ex *Exec) step(st *State, in ssa.Instruction) {
 			base := ex.locOf(st, t.X)
 			ex.checkBounds(st, idx, intLit(at.Len()), t, "index")
 			f := st.elemFam(st.u().sortOf(at.Elem()))
-			st.locs[t] = Loc{Kind: LElem, Fam: f.Name, Obj: base.Obj, Idx: idx, Type: at.Elem()}
+			whole := mkSlice(base.Obj, intLit(0), intLit(at.Len()), intLit(at.Len()))
+			st.locs[t] = Loc{Kind: LElem, Fam: f.Name, Obj: base.Obj, Idx: idx, Type: at.Elem(), Sl: &whole, Rel: &idx}
 		default:
 			ex.abort("IndexAddr on %s", t.X.Type())
 		}
@@ -92,8 +93,8 @@ func (ex *Exec) step(st *State, in ssa.Instruction) {
 		idx := ex.val(st, t.Index)
 		if isStringType(t.X.Type()) {
 			s := ex.val(st, t.X)
-			ex.checkBounds(st, idx, app(SInt, "str.len", s), t, "string index")
-			v := app(SInt, "str.at", s, idx)
+			ex.checkBounds(st, idx, app(SInt, "gstr.len", s), t, "string index")
+			v := app(SInt, "gstr.at", s, idx)
 			st.vals[t] = v
 			st.sc.assert(and(le(intLit(0), v), le(v, intLit(255))))
 			return
@@ -135,7 +136,8 @@ func (ex *Exec) step(st *State, in ssa.Instruction) {
 	case *ssa.MakeSlice:
 		ln := ex.val(st, t.Len)
 		cp := ex.val(st, t.Cap)
-		st.check(fmt.Sprintf("safe/makeslice#%d", ex.ordinal[t]), "bounds", and(le(intLit(0), ln), le(ln, cp), le(cp, T(SInt, "4611686018427387904"))), "make([]T, len, cap): 0 <= len <= cap", nil, t.Pos())
+		st.check(fmt.Sprintf("safe/makeslice#%d", ex.ordinal[t]), "bounds", and(le(intLit(0), ln), le(ln, cp)), "make([]T, len, cap): 0 <= len <= cap", nil, t.Pos())
+		st.sc.assert(le(cp, T(SInt, "281474976710656"))) // allocation succeeded: below the runtime's maxAlloc
 		id := ex.newObject(st, "array")
 		et := t.Type().Underlying().(*types.Slice).Elem()
 		f := st.elemFam(st.u().sortOf(et))
@@ -205,8 +207,8 @@ func (ex *Exec) lookup(st *State, t *ssa.Lookup) {
 	idx := ex.val(st, t.Index)
 	if isStringType(t.X.Type()) {
 		s := ex.val(st, t.X)
-		ex.checkBounds(st, idx, app(SInt, "str.len", s), t, "string index")
-		v := app(SInt, "str.at", s, idx)
+		ex.checkBounds(st, idx, app(SInt, "gstr.len", s), t, "string index")
+		v := app(SInt, "gstr.at", s, idx)
 		st.sc.assert(and(le(intLit(0), v), le(v, intLit(255))))
 		st.vals[t] = v
 		return
@@ -314,9 +316,9 @@ func (ex *Exec) binop(st *State, t *ssa.BinOp) {
 		case x.Sort == SSlice:
 			r = eq(slArr(x), slArr(y)) // only comparison with nil is legal
 		case x.Sort == SStr && y.S == "str_empty":
-			r = eq(app(SInt, "str.len", x), intLit(0))
+			r = eq(app(SInt, "gstr.len", x), intLit(0))
 		case x.Sort == SStr && x.S == "str_empty":
-			r = eq(app(SInt, "str.len", y), intLit(0))
+			r = eq(app(SInt, "gstr.len", y), intLit(0))
 		case x.Sort == SIface && y.Sort != SIface:
 			r = eq(x, st.makeIface(y, t.Y.Type()))
 		case y.Sort == SIface && x.Sort != SIface:
@@ -336,7 +338,7 @@ func (ex *Exec) binop(st *State, t *ssa.BinOp) {
 		st.vals[t] = app(SBool, op, x, y)
 	case token.ADD:
 		if x.Sort == SStr {
-			st.vals[t] = app(SStr, "str.cat", x, y)
+			st.vals[t] = app(SStr, "gstr.cat", x, y)
 			return
 		}
 		if x.Sort != SInt {
@@ -395,18 +397,19 @@ func (ex *Exec) sliceOp(st *State, t *ssa.Slice) {
 			st.check(name, "bounds", and(le(intLit(0), lo), le(lo, hi), le(hi, cp)), "slice bounds in range", nil, t.Pos())
 			st.vals[t] = mkSlice(slArr(s), add(slOff(s), lo), sub(hi, lo), sub(cp, lo))
 		}
+		st.noteSubslice(st.vals[t], s, lo)
 	case *types.Basic:
 		// string slicing
 		s := ex.val(st, t.X)
-		n := app(SInt, "str.len", s)
+		n := app(SInt, "gstr.len", s)
 		hi = n
 		if t.High != nil {
 			hi = ex.val(st, t.High)
 		}
 		st.check(name, "bounds", and(le(intLit(0), lo), le(lo, hi), le(hi, n)), "string slice bounds in range", nil, t.Pos())
 		r := st.sc.fresh("substr", SStr)
-		st.sc.assert(eq(app(SInt, "str.len", r), sub(hi, lo)))
-		st.sc.emit("(assert (forall ((k Int)) (! (=> (and (<= 0 k) (< k (- %[1]s %[2]s))) (= (str.at %[3]s k) (str.at %[4]s (+ %[2]s k)))) :pattern ((str.at %[3]s k)))))", hi.S, lo.S, r.S, s.S)
+		st.sc.assert(eq(app(SInt, "gstr.len", r), sub(hi, lo)))
+		st.sc.emit("(assert (forall ((k Int)) (! (=> (and (<= 0 k) (< k (- %[1]s %[2]s))) (= (gstr.at %[3]s k) (gstr.at %[4]s (+ %[2]s k)))) :pattern ((gstr.at %[3]s k)))))", hi.S, lo.S, r.S, s.S)
 		st.vals[t] = r
 	case *types.Pointer:
 		at := xt.Elem().Underlying().(*types.Array)
@@ -418,6 +421,7 @@ func (ex *Exec) sliceOp(st *State, t *ssa.Slice) {
 		}
 		st.check(name, "bounds", and(le(intLit(0), lo), le(lo, hi), le(hi, n)), "slice bounds in range", nil, t.Pos())
 		st.vals[t] = mkSlice(base.Obj, lo, sub(hi, lo), sub(n, lo))
+		st.noteSubslice(st.vals[t], mkSlice(base.Obj, intLit(0), n, n), lo)
 	default:
 		ex.abort("slice of %s", t.X.Type())
 	}
@@ -440,15 +444,15 @@ func (ex *Exec) convert(st *State, t *ssa.Convert) {
 		// []byte(s): fresh array with the bytes of s
 		id := ex.newObject(st, "bytes")
 		f := st.elemFam(SInt)
-		st.updateFamWhere(f, func(p []Term) Term { return eq(p[0], id) }, func(p []Term) Term { return app(SInt, "str.at", x, p[1]) })
-		n := app(SInt, "str.len", x)
+		st.updateFamWhere(f, func(p []Term) Term { return eq(p[0], id) }, func(p []Term) Term { _, abs := elemAbs(p); return app(SInt, "gstr.at", x, abs) })
+		n := app(SInt, "gstr.len", x)
 		st.vals[t] = mkSlice(id, intLit(0), n, n)
 	case fs == SSlice && ts == SStr:
 		st.vals[t] = st.stringOfBytes(st.heap, x)
 	case fs == SInt && ts == SStr:
-		st.sc.declFun("str.ofrune", []Sort{SInt}, SStr)
-		r := app(SStr, "str.ofrune", x)
-		st.sc.assert(T(SBool, "(and (<= 1 (str.len %[1]s)) (<= (str.len %[1]s) 4) (=> (and (<= 0 %[2]s) (< %[2]s 128)) (and (= (str.len %[1]s) 1) (= (str.at %[1]s 0) %[2]s))) (=> (or (< %[2]s 0) (>= %[2]s 128)) (>= (str.len %[1]s) 2)))", r.S, x.S))
+		st.sc.declFun("gstr.ofrune", []Sort{SInt}, SStr)
+		r := app(SStr, "gstr.ofrune", x)
+		st.sc.assert(T(SBool, "(and (<= 1 (gstr.len %[1]s)) (<= (gstr.len %[1]s) 4) (=> (and (<= 0 %[2]s) (< %[2]s 128)) (and (= (gstr.len %[1]s) 1) (= (gstr.at %[1]s 0) %[2]s))) (=> (or (< %[2]s 0) (>= %[2]s 128)) (>= (gstr.len %[1]s) 2)))", r.S, x.S))
 		st.vals[t] = r
 	case fs == ts:
 		st.vals[t] = x
